@@ -78,6 +78,7 @@ type VC struct {
 // an unrolled loop was left); obligations after the loop can be split on them.
 type caseGroup struct {
 	conds   []Term
+	late    bool // only used in a second attempt (append: in place / reallocated)
 	nAssert int
 	blocks  map[*ssa.BasicBlock]bool
 }
@@ -777,7 +778,7 @@ type pathInfo struct {
 	blocks map[*ssa.BasicBlock]bool
 }
 
-func (vc *VC) pathSplits(ob *Obligation, limit int) []pathInfo {
+func (vc *VC) pathSplits(ob *Obligation, limit int, late bool) []pathInfo {
 	fr := vc.topFrame
 	if fr == nil || ob.blk == nil {
 		return nil
@@ -857,7 +858,7 @@ func (vc *VC) pathSplits(ob *Obligation, limit int) []pathInfo {
 	}
 	// split further on the exit iteration of unrolled loops executed before
 	for _, g := range vc.caseGroups {
-		if g.nAssert > ob.nAsserts || len(g.conds) < 2 {
+		if g.nAssert > ob.nAsserts || len(g.conds) < 2 || (g.late && !late) {
 			continue
 		}
 		if len(out)*len(g.conds) > limit {
@@ -934,4 +935,13 @@ func (vc *VC) divmodAny(x Term, c string) (Term, Term) {
 	vc.addAssertGlobal(fmt.Sprintf("(assert (and (= %s (+ (* %s %s) %s)) (<= 0 %s) (< %s %s)))", x, c, q, r, r, r, c))
 	vc.divMemo[key] = [2]Term{q, r}
 	return q, r
+}
+
+func (vc *VC) hasLateGroups(ob *Obligation) bool {
+	for _, g := range vc.caseGroups {
+		if g.late && g.nAssert <= ob.nAsserts {
+			return true
+		}
+	}
+	return false
 }
